@@ -1482,3 +1482,9 @@ func OriginsThroughCaptures(v ssa.Value) []ssa.Value {
 	rec(v, 0)
 	return out
 }
+
+// AtomsOfCond decomposes the TRUE outcome of a branch condition into atoms (see atomsOf): conjunctions taken apart,
+// the boolean result of a virtually inlined predicate replaced by the expression it returns.
+func AtomsOfCond(cond ssa.Value) []Atom {
+	return atomsOf(cond, true, nil, 0, nil)
+}
